@@ -104,4 +104,139 @@ def run (s : SPool) : List Op → List (Option Nat) × SPool
   | op :: ops => let r := s.step op; let rs := run r.2 ops; (r.1 :: rs.1, rs.2)
 
 end SPool
+
+/-! ## Dynamic pool
+
+A list of pages (newest first).  Every page has a payload size, its content, and the blocks that
+are live in it (newest first).  A block is `(off, len, span)`: `len` bytes were requested, `span`
+bytes are reserved (`len` rounded up to the alignment boundary in padded mode).  Only the newest
+page takes new blocks; a pointer is `(page index counted from the oldest, offset)`. -/
+
+structure PBlk where
+  off  : Nat
+  len  : Nat
+  span : Nat
+  deriving Repr, DecidableEq
+
+structure PPage where
+  size   : Nat
+  bytes  : List Nat
+  blocks : List PBlk       -- live blocks of this page, newest first
+  deriving Repr, DecidableEq
+
+def spanLen : List PBlk → Nat
+  | [] => 0
+  | b :: bs => b.span + spanLen bs
+
+def pagesSize : List PPage → Nat
+  | [] => 0
+  | p :: ps => p.size + pagesSize ps
+
+/-- bytes reserved after a block of `n` bytes: nothing in packed mode or for boundaries ≤ 1,
+otherwise what is missing to the next multiple of the boundary -/
+def padOf (packed : Bool) (ab n : Nat) : Nat :=
+  if !packed && ab > 1 then (if n % ab ≠ 0 then ab - n % ab else 0) else 0
+
+structure DPool where
+  fixed  : Bool
+  packed : Bool
+  ab     : Nat
+  pages  : List PPage      -- newest first
+  undo   : Bool            -- the newest live block of the newest page can still be rolled back
+  deriving Repr, DecidableEq
+
+namespace DPool
+
+def init (size : Nat) (fixed packed : Bool) (ab : Nat) (bytes : List Nat) : DPool :=
+  { fixed, packed, ab, pages := [{ size, bytes, blocks := [] }], undo := false }
+
+def top (s : DPool) : PPage := s.pages.headD { size := 0, bytes := [], blocks := [] }
+def topUsed (s : DPool) : Nat := spanLen s.top.blocks
+/-- as the library counts: earlier pages in full, plus what is reserved in the newest page -/
+def used (s : DPool) : Nat := s.topUsed + pagesSize s.pages.tail
+def free (s : DPool) : Nat := s.top.size - s.topUsed
+
+def pushBlock (s : DPool) (b : PBlk) : DPool :=
+  match s.pages with
+  | p :: ps => { s with pages := { p with blocks := b :: p.blocks } :: ps, undo := true }
+  | [] => s
+
+/-- `grow` is the page-size law (`floor (top size × expansion factor)` in the library), `fresh` the
+content of a new page, `refused` says that the allocator refuses the page if one is requested -/
+def malloc (grow : Nat → Nat) (fresh : Nat) (s : DPool) (n : Nat) (refused : Bool) : Option (Nat × Nat) × DPool :=
+  if n ≥ s.top.size then (none, s) else
+  let span := n + padOf s.packed s.ab n
+  if span ≤ s.top.size - s.topUsed then
+    (some (s.pages.length - 1, s.topUsed), s.pushBlock ⟨s.topUsed, n, span⟩)
+  else if s.fixed || span > grow s.top.size then (none, s)
+  else if refused then (none, s)
+  else
+    let pg : PPage := { size := grow s.top.size, bytes := List.replicate (grow s.top.size) fresh, blocks := [⟨0, n, span⟩] }
+    (some (s.pages.length, 0), { s with pages := pg :: s.pages, undo := true })
+
+/-- `v` is stored into `n` bytes at offset `off` of the newest page -/
+def fillTop (s : DPool) (off n v : Nat) : DPool :=
+  match s.pages with
+  | p :: ps => { s with pages := { p with bytes := fillBytes p.bytes off n v } :: ps }
+  | [] => s
+
+def calloc (grow : Nat → Nat) (fresh : Nat) (s : DPool) (count sz : Nat) (refused : Bool) : Option (Nat × Nat) × DPool :=
+  let r := malloc grow fresh s (count * sz) refused
+  match r.1 with
+  | some p => (some p, r.2.fillTop p.2 (count * sz) 0)
+  | none => (none, r.2)
+
+/-- give a pointer back: only the newest block of the newest page, only once -/
+def release (s : DPool) (p : Option (Nat × Nat)) : DPool :=
+  match s.undo, s.pages, p with
+  | true, pg :: ps, some a =>
+    match pg.blocks with
+    | b :: rest => if a = (ps.length, b.off) then { s with pages := { pg with blocks := rest } :: ps, undo := false } else s
+    | [] => s
+  | _, _, _ => s
+
+/-- one page is left: the oldest, with no live block -/
+def reset (s : DPool) : DPool :=
+  match s.pages.getLast? with
+  | some p => { s with pages := [{ p with blocks := [] }], undo := false }
+  | none => s
+
+/-- the user writes into the newest page (the harness dirties each block right after it got it) -/
+def write (s : DPool) (off n v : Nat) : DPool := s.fillTop off n v
+
+def isZero (s : DPool) (off n : Nat) : Bool :=
+  (List.range n).all fun i => s.top.bytes.getD (off + i) 0 == 0
+
+/-- blocks of one page tile `[0, spanLen)`, each request fits its reservation -/
+def layout : List PBlk → Prop
+  | [] => True
+  | b :: bs => b.off = spanLen bs ∧ b.len ≤ b.span ∧ layout bs
+
+def pageWF (ab : Nat) (packed : Bool) (p : PPage) : Prop :=
+  layout p.blocks ∧ spanLen p.blocks ≤ p.size ∧ p.bytes.length = p.size ∧
+  (packed = false → 0 < ab → ∀ b ∈ p.blocks, b.off % ab = 0 ∧ b.span % ab = 0)
+
+def WF (s : DPool) : Prop :=
+  s.pages ≠ [] ∧ (∀ p ∈ s.pages, pageWF s.ab s.packed p) ∧ (s.fixed = true → s.pages.length = 1)
+
+inductive Op where
+  | malloc (n : Nat) (refused : Bool)
+  | calloc (count sz : Nat) (refused : Bool)
+  | release (p : Option (Nat × Nat))
+  | reset
+  | write (off n v : Nat)
+  deriving Repr, DecidableEq
+
+def step (grow : Nat → Nat) (fresh : Nat) (s : DPool) : Op → Option (Nat × Nat) × DPool
+  | .malloc n r => malloc grow fresh s n r
+  | .calloc c k r => calloc grow fresh s c k r
+  | .release p => (none, s.release p)
+  | .reset => (none, s.reset)
+  | .write off n v => (none, s.write off n v)
+
+def run (grow : Nat → Nat) (fresh : Nat) (s : DPool) : List Op → List (Option (Nat × Nat)) × DPool
+  | [] => ([], s)
+  | op :: ops => let r := step grow fresh s op; let rs := run grow fresh r.2 ops; (r.1 :: rs.1, rs.2)
+
+end DPool
 end CC.Spec
